@@ -4,10 +4,12 @@
    bundle keys), so it is a reachable document to which the C01 value-level round
    trip theorems apply; the decoder's refusals are computed Examples; and what the
    writer emits for a container is read back record by record
-   (C11_written_container_reloads).  Stability of whole documents and agreement with the specification reader are decided per run
+   (C11_written_container_reloads); for PROV-XML, record level: the element written for a record
+   is loaded as that record (C11_written_xml_record_reloads).  Stability of whole documents and agreement with the specification reader are decided per run
    (correspondence + oracle over generated and mutated corpus trees). *)
 From Coq Require Import String List ZArith.
-From Prov Require Import Str StrProofs Sexp Tables Nsm Values Record World WorldProofs Jtree Json JsonProofs JsonSpec JsonRecProofs JsonContProofs.
+From Prov Require Import Str StrProofs Sexp Tables Nsm NsmProofs Values Record World WorldProofs Jtree Json JsonProofs JsonSpec JsonRecProofs JsonContProofs
+  Xml XmlProofs XmlLabel XmlLabelProofs XmlRec XmlRead XmlRecProofs XmlReadProofs.
 Import ListNotations.
 Open Scope string_scope.
 
@@ -65,6 +67,27 @@ Theorem C11_written_container_reloads : forall par ft b0 b m,
   = (add_all (with_ns b0 m) (map renorm (grouped (brecs b))), OK tt).
 Proof. exact json_container_roundtrip. Qed.
 Print Assumptions C11_written_container_reloads.
+
+(* the same for PROV-XML, record level: the element the writer builds for a record (XmlRec.xml_record), loaded by
+   the library's reader (XmlRead.xml_read_record), appends to the container exactly one record of the same kind and
+   identifier holding the attribute dictionary the pairs build (final_attrs: the pair a subtype element name stands
+   for comes back as the asserted type); the container's manager and identifier are untouched *)
+Theorem C11_written_xml_record_reloads : forall par ft fl prefix_of b scope kind ident pairs label rest x d',
+  let c := mkCtx par ft in
+  let m := bns b in
+  lookup kind prov_base_cls = Some kind -> kind <> "Membership" -> Builtins m ->
+  record_label kind pairs = Some (label, rest) ->
+  xml_record fl scope kind ident pairs = Some x ->
+  Forall (child_ok fl c m prefix_of scope) (sorted_pairs kind rest) ->
+  match ident with Some q => scoped scope q /\ Bound m q | None => is_element kind = false end ->
+  put_all (has_collection (sorted_pairs kind rest)) (sorted_pairs kind rest) [] = Some d' ->
+  exists sub b',
+    read_label label = Some (kind, sub) /\
+    xml_read_record par ft prefix_of b x = (b', OK tt) /\
+    bns b' = m /\ bid b' = bid b /\
+    brecs b' = (brecs b ++ [mkRec kind ident (final_attrs sub d')])%list.
+Proof. exact xml_record_roundtrip. Qed.
+Print Assumptions C11_written_xml_record_reloads.
 
 (* full statements, not yet proved *)
 Definition C11_json_stable_statement : Prop :=
